@@ -113,7 +113,7 @@ def rand_el(rng, depth=0, allow_split=True):
         # FillRequest around a run element with yield_on_remainder: documented to use no
         # internal buffer during run (results are yielded one by one, block after block)
         return ["frun", [rand_el(rng, 2, False) for _ in range(rng.randint(0, 2))],
-                rng.randint(1, 5)]
+                rng.randint(1, 5), rng.choice([None, None, "buffer_input", "buffer_output"])]
     if k == "split":
         nb = rng.randint(1, 3)
         return ["split", [[rand_el(rng, 2, False) for _ in range(rng.randint(1, 2))]
@@ -147,6 +147,19 @@ def cases(tier, seed):
             for cb in [True, False]:
                 yield {"k": "splitblocks", "bufsize": b, "branches": nb, "copy_buf": cb, "n": 11}
     yield {"k": "builtins"}
+    # further lazy elements: nothing is pulled when the pipeline is built or run() / the Source
+    # is called (their pull pattern afterwards is not part of the property)
+    for which in ("chunk2", "chunk3list", "reverse", "end", "sum", "negslice", "count",
+                  "frun-yor", "frun-in", "frun-out", "fr-fc", "zip", "groupby", "storefilled",
+                  "chain-seq", "runif", "hist"):
+        for via in ("sequence", "source", "nested"):
+            yield {"k": "nowork", "which": which, "via": via}
+    # a fill/compute branch that stops reading (Slice in front of the accumulator) hands its
+    # result on when it stops: a consumer that wants only that result pulls no further block
+    for b in (1, 2, 3, 5):
+        for n in (0, 1, 2, 4):
+            for others in (0, 1):
+                yield {"k": "splitstop", "bufsize": b, "n": n, "others": others}
     # a Split of Sources used as a source: a later Source is called (its file opened, its
     # generator function started) only when the consumer needs a value from it
     for kinds in (["call", "call"], ["call", "iter", "call"], ["iter", "call"],
@@ -184,8 +197,9 @@ def build(r):
     if k == "runif":
         return lena.flow.RunIf(gen.pred(r[1]), *[build(e) for e in r[2]])
     if k == "frun":
+        kw = {r[3]: True} if len(r) > 3 and r[3] else {}
         return lena.core.FillRequest(lena.core.Sequence(*[build(e) for e in r[1]]),
-                                     bufsize=r[2], yield_on_remainder=True)
+                                     bufsize=r[2], yield_on_remainder=True, **kw)
     return gen.build(r)
 
 
@@ -717,6 +731,79 @@ def _other_case(r, obs):
                       "%s yielded %d values for %d" % (which, len(out), n))
         finally:
             shutil.rmtree(d, ignore_errors=True)
+    elif k == "nowork":
+        import lena.math
+        import lena.structures
+        obs.nontrivial = True
+        which, via = r["which"], r["via"]
+        mk = {
+            "chunk2": lambda: lena.flow.RunningChunkBy(2),
+            "chunk3list": lambda: lena.flow.RunningChunkBy(3, list, from_iterable=True),
+            "reverse": lena.flow.Reverse, "end": lena.flow.End, "sum": lena.math.Sum,
+            "negslice": lambda: lena.flow.Slice(-2, None), "count": lena.flow.Count,
+            "frun-yor": lambda: lena.core.FillRequest(lena.core.Sequence(gen.func("id")),
+                                                      bufsize=3, yield_on_remainder=True),
+            "frun-in": lambda: lena.core.FillRequest(lena.core.Sequence(gen.func("id")),
+                                                     bufsize=3, buffer_input=True),
+            "frun-out": lambda: lena.core.FillRequest(lena.core.Sequence(gen.func("id")),
+                                                      bufsize=3, buffer_output=True),
+            "fr-fc": lambda: lena.core.FillRequest(lena.math.Sum(), bufsize=2, reset=True,
+                                                   buffer_input=True),
+            "zip": lambda: lena.flow.Zip([lena.flow.StoreFilled(), lena.flow.Count()]),
+            "groupby": lena.flow.GroupBy, "storefilled": lena.flow.StoreFilled,
+            "chain-seq": lambda: lena.core.Sequence(gen.func("inc"), lena.flow.RunningChunkBy(2)),
+            "runif": lambda: lena.flow.RunIf(gen.pred("true"), lena.flow.RunningChunkBy(1)),
+            "hist": lambda: lena.structures.Histogram([0, 5, 10]),
+        }[which]
+        tr = Trace()
+        probe = Probe(tr, n=7, make=lambda i: i)
+        if via == "sequence":
+            it = lena.core.Sequence(mk()).run(probe)
+        elif via == "nested":
+            it = lena.core.Sequence(gen.func("id"), lena.core.Sequence(mk()),
+                                    gen.func("id")).run(probe)
+        else:
+            it = lena.core.Source(ReIterable(probe), mk())()
+        pulled = tr.count("pull")
+        obs.count("stop_points_checked")
+        obs.check(pulled == 0, "work-before-demand:" + which,
+                  "%s in a %s: %d values had been pulled when run() / the Source was called, "
+                  "before the first next()" % (which, via, pulled))
+        got = list(it)
+        obs.count("got_events", len(got))
+        obs.count("pull_events", tr.count("pull"))
+        obs.check(tr.count("pull") == 7, "values-differ-from-lazy-reference",
+                  "%s: the flow of 7 values was pulled %d times" % (which, tr.count("pull")))
+    elif k == "splitstop":
+        import lena.math
+        obs.nontrivial = True
+        b, n = r["bufsize"], r["n"]
+        tr = Trace()
+        probe = Probe(tr, n=None, make=lambda i: i, budget=200)
+        branches = [(lena.flow.Slice(n), lena.math.Sum(), gen.Tag("S"))]
+        if r["others"]:
+            branches.append((gen.Tag("P"),))
+        it = lena.core.Sequence(lena.core.Split(branches, bufsize=b)).run(probe)
+        want = None
+        try:
+            for v in it:
+                if isinstance(v, tuple) and v and v[0] == "S":
+                    want = v
+                    break
+        except PullBudgetExceeded:
+            pass
+        pulled = tr.count("pull")
+        need = ((n + 1 + b - 1) // b) * b      # the block that holds value number n
+        obs.count("stop_points_checked")
+        obs.count("pull_events", pulled)
+        obs.check(want == ("S", sum(range(n))), "values-differ-from-lazy-reference",
+                  "Split([(Slice(%d), Sum())...], bufsize=%d) over 0, 1, 2, ...: the result of "
+                  "the stopped branch is %r, expected %r" % (n, b, want, ("S", sum(range(n)))))
+        obs.check(pulled <= need, "pulls-more-than-needed:split-stopped-fill-branch",
+                  "Split([(Slice(%d), Sum())%s], bufsize=%d) over an infinite flow: the result of "
+                  "the branch that stopped reading was delivered after %d pulls; the block in "
+                  "which it stops ends at %d" % (n, ", per-value branch" if r["others"] else "",
+                                                 b, pulled, need))
     elif k == "splitcall":
         obs.nontrivial = True
         kinds, lens, via = r["kinds"], r["lens"], r["via"]
@@ -827,3 +914,7 @@ RULE += (' Added: a Source over a lazy collections.abc.Sequence (every item acce
          'is read when the Source is built); a Split of Sources used as a source, whose Sources have '
          'ordinary callables / non-generator __iter__ as first elements: a later Source is called '
          'only when a value from it is needed.')
+RULE += (' Added: FillRequest(run element, yield_on_remainder=True) also with buffer_input / '
+         'buffer_output; a table of further lazy elements (RunningChunkBy, Reverse, accumulators '
+         'through the Run adapter, FillRequest, Zip ...) for which nothing may be pulled before the '
+         'first next(); a Split fill/compute branch that stops reading in front of an infinite flow.')
